@@ -11,7 +11,9 @@ use std::sync::Arc;
 use std::thread::Thread;
 
 use super::AtomicOption;
-use crate::coroutine_impl::{is_coroutine, run_coroutine, CoroutineImpl, EventSource};
+use crate::coroutine_impl::{
+    current_cancel_data, is_coroutine, run_coroutine, CoroutineImpl, EventSource,
+};
 use crate::likely::{likely, unlikely};
 use crate::scheduler::get_scheduler;
 use crate::yield_now::{yield_now, yield_with};
@@ -44,8 +46,24 @@ impl<'a, T> Park<'a, T> {
 impl<T> Drop for Park<'_, T> {
     fn drop(&mut self) {
         // wait the kernel finish
-        while self.wait_kernel.load(Ordering::Relaxed) {
-            yield_now();
+        if self.wait_kernel.load(Ordering::Relaxed) {
+            // this wait must not raise the Cancel panic: `subscribe` still uses the
+            // park and the queue, unwinding from here would free them under it
+            // (when we are unwinding already yield_now does not panic again)
+            let cancel = if is_coroutine() && !std::thread::panicking() {
+                Some(current_cancel_data())
+            } else {
+                None
+            };
+            if let Some(c) = cancel {
+                c.disable_cancel();
+            }
+            while self.wait_kernel.load(Ordering::Relaxed) {
+                yield_now();
+            }
+            if let Some(c) = cancel {
+                c.enable_cancel();
+            }
         }
     }
 }
